@@ -19,11 +19,13 @@ open PnVerif.IoStatus PnVerif.Gen.IoSites PnVerif.Gen.ErrMap
 def ncOf (cls : Nat) : Int := mpi2nc explicitMap defaultCode cls
 
 /-- deterministic evaluation of one row for incoming code r -/
-def pickRow (pattern : Pattern) (out : Outcome) (later : Bool) (r : Int) : Option Int :=
+def pickRow (isCommit : Bool) (pattern : Pattern) (out : Outcome) (later : Bool) (r : Int) : Option Int :=
   match out.eval r with
   | [v] => some v
   | [a, b] =>
-    if pattern == .overwritable then
+    -- only req_commit's write-phase row is resolved by the request mix; any other row with two
+    -- outcomes depends on something the tables do not see (e.g. `xbuf == buf`): no prediction
+    if isCommit && pattern == .overwritable then
       -- [commitStatus true false r 0, commitStatus true true r 0]
       some (if later then commitStatus true true a b else commitStatus true false a b)
     else none
@@ -51,19 +53,19 @@ def answer (siteId chainS clsS laterS : String) : String :=
       let inTable := paths.any (fun p => p.fn == s.fn && p.chainKeys == rows.map (·.key))
       let all := runChains rows (s.out.eval m)
       -- deterministic pick + first dropping row
-      let step := fun (acc : Option Int × String) (nm : String) (pat : Pattern) (out : Outcome) =>
+      let step := fun (acc : Option Int × String) (nm : String) (isCommit : Bool) (pat : Pattern) (out : Outcome) =>
         match acc.1 with
         | none => acc
         | some r =>
           if r == 0 then acc else
-          match pickRow pat out later r with
+          match pickRow isCommit pat out later r with
           | none => (none, acc.2)
           | some v => (some v, if v == 0 && acc.2 == "-" then nm else acc.2)
       let a0 : Option Int × String :=
-        match pickRow s.pattern s.out later m with
+        match pickRow false s.pattern s.out later m with
         | none => (none, "-")
         | some v => (some v, if v == 0 then s.id else "-")
-      let fin := rows.foldl (fun acc ch => step acc ch.id ch.pattern ch.out) a0
+      let fin := rows.foldl (fun acc ch => step acc ch.id (ch.caller == "req_commit") ch.pattern ch.out) a0
       let pick := match fin.1 with | some v => toString v | none => "ambiguous"
       s!"{pick} | {String.intercalate " " (all.map toString)} | {fin.2} | {api} | {if inTable then "in-table" else "NOT-IN-TABLE"}"
   | _, _ => "bad-request"
